@@ -188,11 +188,16 @@ def eval_case(c):
         if real.relerr(a.data["singular_values"].values, b.data["singular_values"].values) > tol or real.relerr(a.data["scores1"].values, b.data["scores1"].values) > 1e-6:
             msgs.append("ComplexMCA on real data differs from MCA")
     elif pair == "ExtendedEOF(1)=EOF":
+        W = xr.DataArray(rng.uniform(0.5, 2.0, (nlat, nlon)), dims=("lat", "lon"), coords={"lat": da.lat, "lon": da.lon})
+        flagsets = [dict(), dict(standardize=True), dict(use_coslat=True), dict(standardize=True, use_coslat=True), dict(standardize=True, weights=True), dict(center=False)]
+        fl = flagsets[c.get("rep", 0) % len(flagsets)] if c.get("flags", True) else {}
+        wkw = dict(weights=W) if fl.get("weights") else {}
+        fkw = {k: v for k, v in fl.items() if k != "weights"}
         for tau in (1, 3):
-            a = S_.ExtendedEOF(n_modes=3, tau=tau, embedding=1, solver="full").fit(da, "time")
-            b = S_.EOF(n_modes=3, solver="full").fit(da, "time")
+            a = S_.ExtendedEOF(n_modes=3, tau=tau, embedding=1, solver="full", **fkw).fit(da, "time", **wkw)
+            b = S_.EOF(n_modes=3, solver="full", **fkw).fit(da, "time", **wkw)
             if real.relerr(a.explained_variance().values, b.explained_variance().values) > tol:
-                msgs.append(f"ExtendedEOF(embedding=1, tau={tau}): explained variance differs from EOF")
+                msgs.append(f"ExtendedEOF(embedding=1, tau={tau}, {fl}): explained variance differs from EOF")
             pa, pb = _align_sign(b.scores(), a.scores())
             if real.relerr(pb, pa) > 1e-6:
                 msgs.append(f"ExtendedEOF(embedding=1, tau={tau}): scores differ from EOF")
@@ -241,6 +246,9 @@ def eval_case(c):
         rho_cross = np.abs(corr(sx, sy))
         if real.relerr(np.sort(rho_multi), np.sort(rho_cross)) > 1e-4:
             msgs.append(f"canonical correlations: multi-set {rho_multi} vs cross-set {rho_cross}")
+        rho_acc = np.abs(cc.cross_correlation_coefficients().values)
+        if real.relerr(np.sort(rho_acc), np.sort(rho_multi)) > 1e-4:
+            msgs.append(f"canonical correlations reported by cross-set CCA {rho_acc} vs multi-set CCA {rho_multi}")
     return (not msgs), "; ".join(msgs[:3])
 
 
@@ -254,7 +262,7 @@ def bounded_cases(tier, seed):
                     cases.append(dict(pair=pair, use_pca=use_pca, std=std, solver=solver, keep=(solver == "full" and not use_pca and not std)))
     cases.append(dict(pair="CCA", use_pca=False, std=False, solver="full", keep=True, wide=True))
     for pair in ("MCA(X,X)=EOF", "Complex-on-real", "ExtendedEOF(1)=EOF", "SparsePCA(0)=EOF", "PCA(all)=noPCA", "multiCCA=crossCCA"):
-        for r in range(2 if tier == "quick" else 5):
+        for r in range((6 if pair == "ExtendedEOF(1)=EOF" else 2) if tier == "quick" else 6):
             cases.append(dict(pair=pair, keep=True, rep=r))
     for i, c in enumerate(cases):
         c["seed"] = int(seed) * 1000 + i
@@ -290,6 +298,9 @@ def run(tier, seed):
     res.trusted = ["CPython", "opaque-token comparison of constructor results"]
     agg = Agg(res, "C10")
     deductive(res, agg)
+    # ExtendedEOF hands already preprocessed data to its inner EOF: no second standardisation / weighting there (shared forwarding contract)
+    from props.C07 import deductive_inner_models
+    deductive_inner_models(res, agg, aspects=("preprocessing",), models=("ExtendedEOF",))
     agg.flush()
     run_bounded(res, tier, seed)
     return res
